@@ -82,8 +82,11 @@ func Build(spec engine.CartSpec) ([]byte, error) {
 	for v := 0x00; v <= 0x38; v += 8 {
 		img[v] = 0xc9
 	}
+	// interrupt handlers: NOP ; RETI (they must not touch registers: generated programs keep
+	// jump targets in registers)
 	for v := 0x40; v <= 0x60; v += 8 {
-		img[v] = 0xd9
+		img[v] = 0x00
+		img[v+1] = 0xd9
 	}
 	entry := spec.Entry
 	if entry == 0 {
